@@ -22,6 +22,9 @@ MIN_COUNTERS = {"print_parse_checks": 1000}
 PRE = "# NETQASM 1.0\n# APPID 0\n"
 
 
+_EDITS = [0]
+
+
 def cases(ctx):
     rng = ctx.rng
     k = 0
@@ -131,7 +134,8 @@ def _check_one(ctx, flav, fobj, m, vals, other=None):
     if other is not None:
         # instructions are mutable (the transpiler retargets branches in place): after its operands were updated
         # the text printed for the *same object* must describe the updated instruction
-        codec.edit_in_place(instr, codec.mk_instr(fobj, flav, m, other))
+        _EDITS[0] += 1
+        codec.edit_in_place(instr, codec.mk_instr(fobj, flav, m, other), nested=_EDITS[0] % 2 == 0)
         ctx.count("print_after_update_checks")
         text2 = str(instr)
         try:
